@@ -339,7 +339,9 @@ def oracle_c12(tr, fail, stats):
                 lpos.append(p if v is None else advance(p, v, float(tv - tval(ts)), L))
             bary = []
             for d in range(meta["dimension"]):
-                ref = lpos[0][d]
+                # nearest images of the members relative to the composite object's own position (the convention of
+                # base/node.py: yield_closest_leaf_unit_positions)
+                ref = rpos[d]
                 imgs = [ref + (((q[d] - ref + L[d] / 2) % L[d]) - L[d] / 2) for q in lpos]
                 bary.append((sum(imgs) / nper) % L[d])
             n_events = where.get("leg", 0) + 1
